@@ -42,7 +42,9 @@ def ops_for(N, cnt, rnd, full=True):
     for lo in range(N + 2):
         for hi in range(lo, N + 2):
             ops.append(['drain', lo, hi])
+            ops.append(['drainrev', lo, hi])      # the drained items consumed from the back
         ops.append(['drain', lo, 'inf'])
+        ops.append(['drainrev', lo, 'inf'])
     for k in range(N - cnt + 2):
         ops.append(['extend', [70 + i for i in range(k)]])
     for i in range(N + 1):
@@ -157,9 +159,10 @@ def reference(N, lay, cnt, op):
             m = list(l); m[a], m[b] = m[b], m[a]
             return ('ok', None, m)
         return ('panic',)
-    if k == 'drain':
+    if k in ('drain', 'drainrev'):
         lo = int(op[1]); hi = None if op[2] == 'inf' else int(op[2])
-        return ('ok', l[lo:hi], l[:lo] + (l[hi:] if hi is not None else []))
+        got = l[lo:hi]
+        return ('ok', got[::-1] if k == 'drainrev' else got, l[:lo] + (l[hi:] if hi is not None else []))
     if k == 'extend':
         vs = [int(x) for x in op[1]]
         if cnt + len(vs) <= N:
